@@ -24,11 +24,11 @@ MAX_VIOL_PER_SHARD = 60
 MAX_SAMPLES = 3
 
 
-class CaseTimeout(Exception):
+class CaseTimeout(BaseException):        # BaseException: the check modules' `except Exception` must not swallow it
     """the case consumed more than its budget of CPU time (load independent): a verdict for termination properties"""
 
 
-class CaseWallTimeout(Exception):
+class CaseWallTimeout(BaseException):
     """generous wall-clock watchdog: never a verdict, always inconclusive"""
 
 
